@@ -120,6 +120,14 @@ CLAIMS = {
         "value(t+L) = f(value(t)), equality of folded and unfolded forms — tick dynamics.",
    technique="CFG dominance/must-pass-through + writer/reader key agreement + guard-chain analysis",
    ref="DESIGN.md §2 C04"),
+ "C06": dict(
+   text="Static analysis of the four sibling branches of the emitter's property-write code and of the two inlining paths: a plain signal becomes `signal > 0` with the condition enabled in "
+        "every spelling; an inlined comparison is taken only for `signal CMP int -> 1` deciders whose only consumer (complete usage index) is the property write, its three values are passed "
+        "unchanged through comparison_data to the circuit condition, removal is scheduled only there and the entity is re-wired to the decider's input; any()/all() inlining accepts only "
+        "`CMP constant`, maps to the right wildcard and passes operator/constant unchanged; entity outputs are sourced by the entity. NOT decided: that the named signal arrives alone and "
+        "undoubled on the entity's connector for a given layout; entity contents.",
+   technique="sibling-branch comparison + key/value pass-through over dict displays + guard-chain analysis",
+   ref="DESIGN.md §2 C06"),
 }
 NA_DEFAULT = "check not built yet (build phase in progress); see DESIGN.md for the planned rules"
 NA = {}
